@@ -3,7 +3,7 @@
    embedding lemmas; the induction over the token tree and the Markdown/RST renderers are covered by the
    oracle only. *)
 From Coq Require Import ZArith List Bool Lia.
-From Verif Require Import PyStr Util UtilGen UtilProofs Tmpl HtmlRender TmplCheck TmplBalance TmplGen C18 Inline Block Doc HtmlDoc HtmlDocProofs HtmlWellNested HtmlLeaves Entry.
+From Verif Require Import PyStr Util UtilGen UtilProofs Tmpl HtmlRender TmplCheck TmplBalance TmplGen C18 Inline Block Doc HtmlDoc HtmlDocProofs HtmlWellNested HtmlLeaves Entry Rx RxAnalysis RxSub RxSubProofs RxGen MdRender MdDoc MdProofs Normalize NormalizeGen UnicodeGen.
 Import ListNotations.
 Open Scope Z_scope.
 
@@ -120,7 +120,7 @@ Proof. intros px hw s out H. exact (html_returns_to_data false out (C06_whole_do
 Lemma ext_shows : forall name, shows (ext_template name) 0 is_plain = true.
 Proof. intros name. apply (ext_template_cases6 name (fun t => shows t 0 is_plain = true)); vm_compute; reflexivity. Qed.
 
-Definition leaves_of (ast : list node) : list str := flat_map (node_leaves (html_env true) escape_ops) ast.
+Definition leaves_of (ast : list node) : list str := flat_map (HtmlLeaves.node_leaves (html_env true) escape_ops) ast.
 
 Theorem C06_whole_document_shows_every_leaf_in_order : forall px hw s ast out,
   doc_parse_x px hw s = Ok ast -> html_x px true hw s = Ok out -> in_order (leaves_of ast) out.
@@ -137,7 +137,37 @@ Example C06_leaves_not_vacuous :
   end.
 Proof. vm_compute. reflexivity. Qed.
 
+(* ---- the Markdown renderer (model coq/Model/MdDoc.v of renderers/markdown.py and _list.py over the core AST; tied by
+   skeletons, regenerated patterns and the Markdown correspondence run of this check): for EVERY document the letters and
+   digits of all text, code-span, inline-HTML, code-block and HTML-block leaves of the AST, in document order, are a
+   subsequence of the letters and digits of the output: quoting, list indentation, the removal of trailing quote lines and
+   strip_end never drop or reorder a word character of a leaf. ---- *)
+Definition md_ast (hw : bool) (s : str) : res (list node * refs) :=
+  match block_cfg, inline_cfg_x false hw [] with
+  | Some CB, Some d => doc_parse_rf CB (fun rf => inline_cfg_or false hw rf d) (run_ops parse_norm_ops) s
+  | _, _ => Exn
+  end.
+
+Theorem C06_markdown_output_keeps_every_leaf : forall hw s out, md_x hw s = Ok out ->
+  exists ast rf, md_ast hw s = Ok (ast, rf) /\
+                 subseq (flat_map (fun x => letters x) (flat_map MdProofs.node_leaves ast)) (letters out).
+Proof.
+  intros hw s out H. unfold md_x in H. unfold md_ast. destruct block_cfg as [CB|]; [|discriminate].
+  destruct (inline_cfg_x false hw []) as [d|]; [|discriminate]. unfold bind in H.
+  destruct (doc_parse_rf CB _ _ s) as [[ast rf]| |]; try discriminate. inversion H; subst out. exists ast, rf. split; [reflexivity|].
+  apply (md_doc_keeps_leaves U rx_renderers_markdown__quote_end_re rx_util__strip_end_re alnum); vm_compute; reflexivity.
+Qed.
+
+(* the document "> a1 *b2*" followed by a list item "- `c3`": leaves a1, b2, c3 *)
+Example C06_markdown_not_vacuous :
+  match md_ast false [62; 32; 97; 49; 32; 42; 98; 50; 42; 10; 10; 45; 32; 96; 99; 51; 96; 10] with
+  | Ok (ast, _) => flat_map (fun x => letters x) (flat_map MdProofs.node_leaves ast) = [97; 49; 98; 50; 99; 51]
+  | _ => False
+  end.
+Proof. vm_compute. reflexivity. Qed.
+
 Print Assumptions C06_templates_balanced.
+Print Assumptions C06_markdown_output_keeps_every_leaf.
 Print Assumptions C06_whole_document_shows_every_leaf_in_order.
 Print Assumptions C06_leaves_escaped_once.
 Print Assumptions C06_whole_document_is_well_nested.
